@@ -13,6 +13,7 @@ decl:  obj <id> <parent|-> <inherited csv|-> <module docformat f|-> <docstring u
        par <f> <obj> raise <exc> <errs>             parser outcome: raises exc after appending errs
        pd <k> <S> <N> <W> <T> <F>                   behaviours of ParsedDocstring k
        ty <k> <M> <S>                               ParsedTypeDocstring built from field body k
+       nt <k> <u:text>                              text of the node tree of field body k (default empty)
        plain <N> <W> <T>                            ParsedPlaintextDocstring.to_node / walk / toc (default)
        plainfor <u:text> <N> <W> <T>                same, for that text only
        xo <id> <isAttribute 0/1> <annotation k|-> <constant k|-> <signature -|S> <bases csv|-> <decorators csv|->
@@ -162,6 +163,7 @@ structure Decls where
   plainToc : TocOut := .empty
   plainFor : List (Text × NodeOut × WalkOut × TocOut) := []
   xos : List XDecl := []
+  nodeTexts : List (Nat × Text) := []
 
 def lookupPd (d : Decls) (k : Nat) : PdSpec :=
   match d.pds.find? (·.1 == k) with
@@ -231,6 +233,10 @@ def parseDecls : Nat → List String → Decls → Option (Decls × List String)
     let w ← parseWalkOut w
     let t ← parseTocOut t
     parseDecls fuel rest { d with plainNode := n, plainWalk := w, plainToc := t }
+  | fuel+1, "nt" :: k :: x :: rest, d => do
+    let k ← k.toNat?
+    let x ← Proto.decodeStr x
+    parseDecls fuel rest { d with nodeTexts := d.nodeTexts ++ [(k, x)] }
   | fuel+1, "plainfor" :: x :: n :: w :: t :: rest, d => do
     let x ← Proto.decodeStr x
     let n ← parseNodeOut n
@@ -285,6 +291,7 @@ def mkEnv (pt : Bool) (td : Nat) (sys : Docformat) (d : Decls) : Env where
     | .user k _ => (lookupPd d k).toc
     | .plain t => (plainSpec d t).2.2
     | .stanOnly _ => .empty
+  nodeText := fun k => match d.nodeTexts.find? (·.1 == k) with | some p => p.2 | none => []
   isAttribute := fun o => match d.xos.find? (·.id == o) with | some x => x.isAttr | none => false
   annotation := fun o => match d.xos.find? (·.id == o) with | some x => x.ann | none => none
   constPd := fun o => match d.xos.find? (·.id == o) with | some x => x.const | none => 0
